@@ -762,6 +762,21 @@ func (c *Ctx) ruleIter(pkgs ...string) {
 					continue
 				}
 				ast.Inspect(fd.Body, func(n ast.Node) bool {
+					if fs, isFor := n.(*ast.ForStmt); isFor {
+						// an index loop over one of those lists: for i := 0; i < len(list); i++ { ... list[i] ... }
+						if list := indexLoopList(fs); list != nil && c.iterRelevant(p.TypesInfo.TypeOf(list), list) {
+							nLoops++
+							cons := pkg + "." + fd.Name.Name + "#index loop " + types.ExprString(list)
+							if why := indexLoopPartial(fs, list); why != "" {
+								c.fail("ITER/NO-EARLY-EXIT", cons, P.Pos(fs.Pos()), "index loop over "+types.ExprString(list)+" does not visit every element: "+why)
+							} else if exit := loopEarlyExit(fs.Body); exit != nil {
+								c.fail("ITER/NO-EARLY-EXIT", cons, P.Pos(exit.Pos()), "loop over "+types.ExprString(list)+" can stop before the last element (break/return/goto inside the body)")
+							} else {
+								c.ok("ITER/NO-EARLY-EXIT", cons, P.Pos(fs.Pos()), "loop visits every element")
+							}
+						}
+						return true
+					}
 					rs, ok := n.(*ast.RangeStmt)
 					if !ok {
 						return true
@@ -861,4 +876,85 @@ func loopEarlyExit(body *ast.BlockStmt) ast.Node {
 	}
 	walk(body, 0)
 	return found
+}
+
+// indexLoopList: the loop condition of fs compares its counter with len(<list>) (possibly +/- a constant): <list>.
+func indexLoopList(fs *ast.ForStmt) ast.Expr {
+	be, ok := fs.Cond.(*ast.BinaryExpr)
+	if !ok {
+		return nil
+	}
+	var found ast.Expr
+	for _, side := range []ast.Expr{be.X, be.Y} {
+		ast.Inspect(side, func(n ast.Node) bool {
+			if call, ok := n.(*ast.CallExpr); ok && len(call.Args) == 1 {
+				if id, ok := call.Fun.(*ast.Ident); ok && id.Name == "len" {
+					found = call.Args[0]
+				}
+			}
+			return true
+		})
+	}
+	return found
+}
+
+// indexLoopPartial: why the index loop does not have the shape `for i := 0; i < len(list); i++` with a counter that
+// the body leaves alone ("" if it has).
+func indexLoopPartial(fs *ast.ForStmt, list ast.Expr) string {
+	init, ok := fs.Init.(*ast.AssignStmt)
+	if !ok || len(init.Lhs) != 1 || len(init.Rhs) != 1 {
+		return "the counter is not initialised in the loop header"
+	}
+	ctr, ok := init.Lhs[0].(*ast.Ident)
+	if !ok {
+		return "the counter is not a variable"
+	}
+	if lit, ok := init.Rhs[0].(*ast.BasicLit); !ok || lit.Value != "0" {
+		return "the counter does not start at 0"
+	}
+	be := fs.Cond.(*ast.BinaryExpr)
+	isCtr := func(e ast.Expr) bool { id, ok := e.(*ast.Ident); return ok && id.Name == ctr.Name }
+	isLen := func(e ast.Expr) bool {
+		call, ok := e.(*ast.CallExpr)
+		if !ok || len(call.Args) != 1 {
+			return false
+		}
+		id, ok := call.Fun.(*ast.Ident)
+		return ok && id.Name == "len" && types.ExprString(call.Args[0]) == types.ExprString(list)
+	}
+	switch {
+	case be.Op == token.LSS && isCtr(be.X) && isLen(be.Y):
+	case be.Op == token.GTR && isLen(be.X) && isCtr(be.Y):
+	case be.Op == token.NEQ && (isCtr(be.X) && isLen(be.Y) || isLen(be.X) && isCtr(be.Y)):
+	default:
+		return "the loop condition is not `" + ctr.Name + " < len(" + types.ExprString(list) + ")`"
+	}
+	post, ok := fs.Post.(*ast.IncDecStmt)
+	if !ok || post.Tok != token.INC || !isCtr(post.X) {
+		if as, isAs := fs.Post.(*ast.AssignStmt); !isAs || as.Tok != token.ADD_ASSIGN || len(as.Lhs) != 1 || !isCtr(as.Lhs[0]) || types.ExprString(as.Rhs[0]) != "1" {
+			return "the counter is not incremented by one"
+		}
+	}
+	// the body leaves the counter alone
+	why := ""
+	ast.Inspect(fs.Body, func(n ast.Node) bool {
+		switch x := n.(type) {
+		case *ast.AssignStmt:
+			for _, l := range x.Lhs {
+				if isCtr(l) && x.Tok != token.DEFINE {
+					why = "the body assigns the counter"
+				}
+			}
+		case *ast.IncDecStmt:
+			if isCtr(x.X) {
+				why = "the body changes the counter"
+			}
+		case *ast.UnaryExpr:
+			if x.Op == token.AND && isCtr(x.X) {
+				why = "the body takes the address of the counter"
+			}
+		}
+		return true
+	})
+	return why
 }
